@@ -1,6 +1,7 @@
 import AcraModel.Basic.Bytes
 import AcraModel.Crypto.Shim
 import AcraModel.AuditLog.Parse
+import AcraModel.AuditLog.Json
 /-! Driver ops for C20 (audit-log integrity chain). Crypto instance: `shimOps` (real SHA-256 / HMAC-SHA256),
 so every tag is recomputed exactly. -/
 namespace Driver.C20
@@ -46,6 +47,24 @@ def handle (op : String) (args : List String) : Option String :=
       | _ => none
     let es := produce C key (Calc.new C key) its
     pure (" ".intercalate (es.map fun e => s!"{hexOf e.tag}:{b01 e.isNew}"))
+  | "produce", "json" :: key :: items => do
+    -- JSON: items are the formatter outputs as the hook receives them (nothing is cut)
+    let key ← ofHex key
+    let its ← items.mapM fun it => match it.splitOn ":" with
+      | [d, r] => do let d ← ofHex d; pure (⟨d, r == "1"⟩ : LItem)
+      | _ => none
+    match produceJsonBytes C key (Calc.new C key) its with
+    | some ls => pure (hexOf (ls.flatMap fun l => l ++ [10]))
+    | none => pure "err"
+  | "parse", ["json", line] => do
+    let line ← ofHex line
+    pure (lineStr (jsonParse line))
+  | "verify", ["json", key, file] => do
+    let key ← ofHex key; let file ← ofHex file
+    pure (verdictStr (verify C key ((scanLines file).map jsonParse)))
+  | "jenc", [s] => do
+    let s ← ofHex s
+    pure (hexOf (encStr s))
   | "produce", fmt :: key :: items => do
     -- items: <formatter output hex incl. trailing bytes>:<reset01>  →  hex of the log file
     let (_, _, cutN) ← modeOf fmt
